@@ -218,7 +218,7 @@ def all_workers(cluster):
 # ---------------------------------------------------------------------------
 # profiles
 # ---------------------------------------------------------------------------
-def gen_strategy(rng, cluster, runtimes, feasible=True, batch_size=1):
+def gen_strategy(rng, cluster, runtimes, feasible=True, batch_size=1, specific_ids=0.0):
     workers = all_workers(cluster)
     w = rng.choice(workers)
     cap = worker_capacity(w)
@@ -230,13 +230,42 @@ def gen_strategy(rng, cluster, runtimes, feasible=True, batch_size=1):
         hi = cap[n] if feasible else cap[n] + rng.randint(1, 2)
         lo = 1 if feasible else cap[n] + 1
         req[f"{n}:any"] = rng.randint(lo, hi)
+    if feasible and specific_ids > 0 and rng.random() < specific_ids:
+        # name one instance explicitly (alone, or next to an 'any' request of the same type)
+        inst = [r for r in w["resources"] if ":" in r["name"] and r["quantity"] > 0]
+        if inst:
+            r = rng.choice(inst)
+            n = r["name"].split(":")[0]
+            if f"{n}:any" in req and req[f"{n}:any"] > 1 and rng.random() < 0.5:
+                req[f"{n}:any"] -= 1
+                req[r["name"]] = 1
+            elif f"{n}:any" in req:
+                q = min(req.pop(f"{n}:any"), r["quantity"])
+                req[r["name"]] = q
     return {"batch_size": batch_size, "runtime": rng.choice(runtimes), "resource_requirements": req}
 
 
 def strategy_fits_empty(strategy, cluster):
+    """instance-aware: specific ids from their instance, 'any' from the rest."""
     for w in all_workers(cluster):
-        cap = worker_capacity(w)
-        if all(cap.get(k.split(":")[0], 0) >= q for k, q in strategy["resource_requirements"].items()):
+        inst = {}
+        for k, r in enumerate(w["resources"]):
+            parts = r["name"].split(":")
+            inst[(parts[0], parts[1] if len(parts) > 1 else f"#{k}")] = r["quantity"]
+        ok = True
+        req = strategy["resource_requirements"]
+        for name in {k.split(":")[0] for k in req}:
+            spec = 0
+            for k, q in req.items():
+                n, i = k.split(":")
+                if n == name and i != "any":
+                    if inst.get((n, i), 0) < q:
+                        ok = False
+                    spec += q
+            anyq = sum(q for k, q in req.items() if k.split(":")[0] == name and k.endswith(":any"))
+            if anyq + spec > sum(v for (n, i), v in inst.items() if n == name):
+                ok = False
+        if ok:
             return True
     return False
 
@@ -358,7 +387,8 @@ def gen_world(seed, index, profile="greedy", **over):
             if any(p["name"] == pname for p in profiles):
                 continue
             nstrat = rng.choice([1, 1, 2, 2, 3])
-            strategies = [gen_strategy(rng, cluster, runtimes, feasible=True) for _ in range(nstrat)]
+            strategies = [gen_strategy(rng, cluster, runtimes, feasible=True,
+                                       specific_ids=over.get("specific_ids", 0.0)) for _ in range(nstrat)]
             if not feasible and rng.random() < 0.3:
                 strategies = [gen_strategy(rng, cluster, runtimes, feasible=False) for _ in range(nstrat)]
             profiles.append({"name": pname, "execution_strategies": strategies})
